@@ -75,6 +75,7 @@ func initProperties() {
 				use("RECDEPTH", "recursion budget", anyOf(thriftGeneric)),
 				use("KINDEXH", "type switches exhaustive", anyOf(thriftGeneric, thriftPkg)),
 				use("ADVANCEPOS", "skip helpers advance", thriftPkg),
+				use("ROLEMIX", "key/value type dispatch not mixed", nil),
 			)},
 		{ID: "C02", Title: "JSON->Thrift conversion encodes exactly the value the JSON denotes", QuickP: true,
 			Decides: "option plumbing into the native FSM (FLAGSYNC: every conv.Option that affects j2t reaches its own flag bit, flags recomputed after every options write), the native status is tested and handled (NATIVERET), and for the portable converter (config P): every JSON-kind case of doRecurse ends in a return (CASEEXIT), the portable code reads the same options the flag table maps (OPTAGREE), no error dropped (DROPERR), thrift type switch exhaustive (KINDEXH).",
@@ -138,6 +139,9 @@ func initProperties() {
 				use("DROPERR", "decoder errors stop the walk", nil),
 				use("ERRSWALLOW", "decoder errors stop the walk", nil),
 				use("UNKNOWNSKIP", "unknown fields skipped", nil),
+				use("ROLEMIX", "key/value type dispatch not mixed", nil),
+				use("ADVANCEPOS", "skip helpers advance", nil),
+				use("VARINTNARROW", "varint lengths bounded before narrowing", nil),
 			)},
 		{ID: "C07", Title: "Protobuf reads return exactly what the reference decoder sees",
 			Decides: "unknown field numbers in the message cannot crash reads (NILLOOKUP over proto/generic), kind/wire-type/packedness tables match the protobuf spec (KINDTABLE — they drive every skip), errors propagate (DROPERR, ERRSWALLOW), search loops consume (LOOPPROGRESS), unknown fields are skipped (UNKNOWNSKIP).",
@@ -299,6 +303,7 @@ func initProperties() {
 				use("UNKNOWNSKIP", "unknown skipped", thriftPkg),
 				use("ARGSWAP", "arguments in order", thriftPkg),
 				use("ADVANCEPOS", "skip helpers advance", thriftPkg),
+				use("ROLEMIX", "key/value type dispatch not mixed", nil),
 			)},
 		{ID: "C20", Title: "Protobuf wire codec agrees with the reference implementation",
 			Decides: "per kind, the descriptor-driven reader and writer use inverse wire primitives matching the spec incl. zig-zag (RWPAIR), unrolled varint stages follow the template (VARINTTEMPLATE), kind/wire tables = spec (KINDTABLE), option/flag arguments are passed in parameter order (ARGSWAP), map entries key=1/value=2 (MAPTAG), speculative lengths finished and writer errors propagated in WriteList/WriteMap/WriteMessageFields (SPECLENPAIR, DROPERR), no size panics (PANICARG).",
